@@ -13,6 +13,7 @@ use crate::reg::Reg;
 #[cfg(feature = "c16")] pub mod c16;
 #[cfg(feature = "c14")] pub mod c14;
 #[cfg(feature = "c17")] pub mod c17;
+#[cfg(feature = "c12")] pub mod c12;
 
 pub fn register(prop: &str, reg: &mut Reg) {
     match prop {
@@ -28,6 +29,7 @@ pub fn register(prop: &str, reg: &mut Reg) {
         #[cfg(feature = "c16")] "C16" => c16::register(reg),
         #[cfg(feature = "c14")] "C14" => c14::register(reg),
         #[cfg(feature = "c17")] "C17" => c17::register(reg),
+        #[cfg(feature = "c12")] "C12" => c12::register(reg),
         _ => { eprintln!("symx: property {} not available in this build", prop); std::process::exit(2); }
     }
 }
